@@ -17,13 +17,13 @@ def norm : PyVal → PyVal
   | .ndarr xs => .seq xs
   | v => v
 
-/-- a value the persistence layer can carry: no `None` inside a sequence, and no string that
-    collides with the None alias -/
+/-- a value the persistence layer can carry: no `None` inside a sequence, no sequence too long for an HDF5 attribute,
+    and no string that collides with the None alias -/
 def StorableVal : PyVal → Prop
   | .sc (.str s) => s ≠ noneAlias
   | .sc _ => True
-  | .seq xs => ¬ (xs.any (· == Sc.none)) = true
-  | .ndarr xs => ¬ (xs.any (· == Sc.none)) = true
+  | .seq xs => ¬ (xs.any (· == Sc.none)) = true ∧ xs.length < attrMaxLen
+  | .ndarr xs => ¬ (xs.any (· == Sc.none)) = true ∧ xs.length < attrMaxLen
 
 theorem attr_roundtrip (v : PyVal) (hv : StorableVal v) :
     ∃ st, h5Attr (toAlias v) = some st ∧ fromAlias st = norm v := by
@@ -38,11 +38,13 @@ theorem attr_roundtrip (v : PyVal) (hv : StorableVal v) :
       have : s ≠ noneAlias := hv
       simp [fromAlias, norm, this]
   | seq xs =>
-    have : ¬ (xs.any (· == Sc.none)) = true := hv
-    exact ⟨.array xs, by simp [toAlias, h5Attr, this], rfl⟩
+    have h1 : ¬ (xs.any (· == Sc.none)) = true := hv.1
+    have h2 : ¬ attrMaxLen ≤ xs.length := Nat.not_le.2 hv.2
+    exact ⟨.array xs, by simp [toAlias, h5Attr, h1, h2], rfl⟩
   | ndarr xs =>
-    have : ¬ (xs.any (· == Sc.none)) = true := hv
-    exact ⟨.array xs, by simp [toAlias, h5Attr, this], rfl⟩
+    have h1 : ¬ (xs.any (· == Sc.none)) = true := hv.1
+    have h2 : ¬ attrMaxLen ≤ xs.length := Nat.not_le.2 hv.2
+    exact ⟨.array xs, by simp [toAlias, h5Attr, h1, h2], rfl⟩
 
 /-- an attribute dictionary comes back with the same key → value mapping (scalar-like entries
     first, array entries after them: dictionary order is not part of equality) -/
